@@ -10,6 +10,7 @@ import (
 	"strings"
 	"time"
 
+	shared "github.com/aquilax/hranoprovod-cli/v3"
 	"github.com/aquilax/hranoprovod-cli/v3/parser"
 )
 
@@ -99,7 +100,45 @@ func chanTrace(e *env) error {
 			failAt = sb.Len()
 		}
 		data := sb.String()
-		p := parser.NewParser(parser.NewDefaultConfig())
+		// a parser configuration with another comment character, with comment lines in that character
+		pcfg := parser.NewDefaultConfig()
+		if e.rng.Intn(3) == 0 {
+			pcfg.CommentChar = []uint8{';', '|', '~', '%', '$', '!'}[e.rng.Intn(6)]
+			cch := string(rune(pcfg.CommentChar))
+			data = cch + " a comment\n" + strings.Replace(data, ":\n", ":\n  "+cch+" note: in the middle\n", 1)
+			if failAt >= 0 {
+				failAt = len(data)
+			}
+		}
+		// what the callback parser reports for this input and configuration is the reference (C18's statement):
+		// the records before its first error, then nil / that error / a read error
+		{
+			var cbItems []string
+			cbFinal := "nil"
+			var rd0 io.Reader = strings.NewReader(data)
+			if failAt >= 0 {
+				rd0 = &faultReader{data: []byte(data), failAt: failAt, style: 1, err: errInjected}
+			}
+			ret := parser.ParseStreamCallback(rd0, pcfg, func(n *shared.ParserNode, err error) (bool, error) {
+				if err != nil {
+					cbItems = append(cbItems, "err")
+					return true, err
+				}
+				cbItems = append(cbItems, "node")
+				return false, nil
+			})
+			if ret != nil {
+				cbFinal = "io"
+				if len(cbItems) > 0 && cbItems[len(cbItems)-1] == "err" {
+					cbFinal = "cb"
+				}
+			}
+			items, final = cbItems, cbFinal
+			if items == nil {
+				items = []string{}
+			}
+		}
+		p := parser.NewParser(pcfg)
 		exited := make(chan struct{})
 		switch entry {
 		case "stream":
@@ -127,6 +166,9 @@ func chanTrace(e *env) error {
 				e.emitEv("Recv", map[string]interface{}{"ch": "Nodes", "i": nodes})
 			case <-p.Errors:
 				e.emitEv("Recv", map[string]interface{}{"ch": "Errors", "i": 0})
+				if policy == "drain" && r%6 == 0 {
+					time.Sleep(25 * time.Millisecond) // a consumer that is slow to come back for Done
+				}
 				if policy == "stop" {
 					returned = true
 					break loop
